@@ -81,6 +81,9 @@ struct cuthill_mckee {
     static void get(const Matrix &A, Vector &perm) {
         const ptrdiff_t n = backend::rows(A);
 
+        // Nothing to do for an empty matrix.
+        if (n == 0) return;
+
         /* The data structure used to sort and traverse the level sets:
          *
          * The current level set is currentLevelSet;
